@@ -238,11 +238,14 @@ func VerifSysHeal() {
 		w.net.Fault = func(from, to peer.ID, topic string) int { return vstub.NdChoice("fate", faults) }
 	}
 	for s := 0; s < steps; s++ {
-		kind := vstub.NdChoice("step", 5)
+		kind := vstub.NdChoice("step", 7)
 		who := vstub.NdChoice("who", npeers)
 		p := w.peers[who]
 		switch kind {
 		case 0: // a write on some peer; its announcement meets the fault plan
+			if _, open := p.stores[addrA]; !open {
+				continue
+			}
 			if p.add(addrA, byte('a'+who)) == nil {
 				return
 			}
@@ -255,6 +258,27 @@ func VerifSysHeal() {
 			q := w.peers[(who+1)%npeers]
 			w.net.Heal(p.id, q.id)
 			vstub.Cover("heal")
+		case 5:
+			// p closes its replica of A (the store, not the instance) ...
+			st, open := p.stores[addrA]
+			if !open || p.o == nil {
+				continue
+			}
+			if err := st.Close(); err != nil {
+				vstub.Fail("sys: store Close failed")
+				return
+			}
+			delete(p.stores, addrA)
+			vstub.Cover("store-closed")
+		case 6:
+			// ... and opens it again later on the same instance
+			if _, open := p.stores[addrA]; open || p.o == nil {
+				continue
+			}
+			if p.open(addrA) == nil {
+				return
+			}
+			vstub.Cover("store-reopened")
 		case 3, 4:
 			// restart p: close the instance, boot a new one on the same directory and
 			// blocks (3), or - for a peer that has not written anything, so that no
@@ -285,7 +309,16 @@ func VerifSysHeal() {
 		}
 		vstub.WaitIdle()
 	}
-	// ---- writes stop; every link is (re-)established, which - as with real
+	// ---- writes stop; every replica that was closed is opened again
+	for _, p := range w.peers {
+		if _, open := p.stores[addrA]; !open {
+			if p.open(addrA) == nil {
+				return
+			}
+		}
+	}
+	vstub.WaitIdle()
+	// every link is (re-)established, which - as with real
 	// pubsub - makes each side observe the other joining the topic
 	w.net.Fault = nil
 	for i := range w.peers {
